@@ -117,6 +117,8 @@ impl SubscriptionActor {
             let deleted = actor.observer.deleted();
             let poll = async {
                 loop {
+                    #[cfg(deltio_verif)]
+                    crate::verif::point("sub_actor.turn").await;
                     tokio::select! {
                         Some(request) = receiver.recv() => {
                             actor.receive(request).await
@@ -269,6 +271,8 @@ impl SubscriptionActor {
 
         self.deleted = true;
 
+        #[cfg(deltio_verif)]
+        crate::verif::point("sub_actor.delete.before_remove").await;
         // If the topic is still around, remove ourselves from it's list of subscriptions.
         if let Some(topic) = self.topic.upgrade() {
             topic
@@ -279,6 +283,8 @@ impl SubscriptionActor {
                 })?;
         }
 
+        #[cfg(deltio_verif)]
+        crate::verif::point("sub_actor.delete.after_remove").await;
         self.delegate.delete(&self.info.name);
         self.observer.notify_deleted();
         self.outstanding.clear();
